@@ -174,7 +174,11 @@ func runTrajectoryHook(sc *Scenario, env *Env, oc *OutputCfg, oracles []Oracle, 
 		res.Status = "violation"
 	}
 	// real-disk slice: the same run once more with the shipped file writer, no hooks; the files must equal the simulated disk byte for byte
-	if sc.Idx%40 == 7 && out.Panic == "" && os.Getenv("VERIF_NO_REALDISK") == "" {
+	dynamicFault := w.WxFault != nil && w.WxFault.Kind == "delete-at" // injected by the probe at a simulated date: not reproducible without hooks
+	if sc.Idx%40 == 7 && dynamicFault {
+		res.add("realdisk.skipped-dynamic-fault", 1)
+	}
+	if sc.Idx%40 == 7 && out.Panic == "" && !dynamicFault && os.Getenv("VERIF_NO_REALDISK") == "" {
 		root2 := env.NewRoot()
 		if err := WriteFiles(root2, fs, env.ParamDir); err == nil {
 			if onRoot != nil {
